@@ -69,14 +69,20 @@ Corpus ==
     \* print tags whose expression begins and ends with a string literal (one quote kind)
     strcat  |-> ("main" :> <<Sym(1), PrintS(Bin("~", LS(<<97>>), LS(<<98>>))), Sym(2), PrintS(Cond(LS(<<121>>), LS(<<84>>), LS(<<70>>))), Sym(3),
                              PrintS(Bin("~", Bin("~", LS(<<97>>), Var("x")), LS(<<99>>))), If1(Bin("==", LS(<<120>>), LS(<<120>>)), <<Sym(4)>>)>>),
+    \* empty comments glued to tags; an end tag that repeats the block's name; a filter on an attribute path written without blanks
+    cmtadj  |-> ("main" :> <<Sym(1), Comment(<<>>), PrintS(Var("x")), Comment(<<>>), Sym(2), Comment(<<>>), If1(Var("x"), <<Sym(3)>>), Comment(<<>>), Sym(4)>>),
+    namedend |-> ("main" :> <<Sym(1), Block("bb", <<Sym(2)>>) @@ [nm |-> TRUE], Sym(3), Block("cc", <<PrintS(Var("x"))>>) @@ [nm |-> TRUE], Sym(4)>>),
+    attrfilt |-> ("main" :> <<Sym(1), PrintS(Filt("upper", Attr(Var("o"), "k"), <<>>)), Sym(2), PrintS(Filt("e", Attr(Attr(Var("o"), "p"), "q"), <<>>)), Sym(3), PrintS(Filt("length", Attr(Var("o"), "k"), <<>>))>>),
     printnum |-> ("main" :> <<Sym(1), PrintS(LI(42)), Sym(2), PrintS(LI(7)), Sym(3), If1(LI(1), <<Sym(4)>>)>>)
   ]
-Ctx == ("x" :> VI(3)) @@ ("s" :> VS(<<97>>)) @@ ("ID" :> VI(11)) @@ ("id" :> VI(12)) @@ ("Class" :> VI(13)) @@ ("userName" :> VI(14)) @@ ("username" :> VI(15)) @@ ("A" :> VI(16))
+Ctx == ("o" :> VM(<<VS(<<107>>), VS(<<112>>)>>, <<VS(<<97, 60>>), VM(<<VS(<<113>>)>>, <<VS(<<60, 98, 62>>)>>)>>)) @@ ("x" :> VI(3)) @@ ("s" :> VS(<<97>>)) @@ ("ID" :> VI(11)) @@ ("id" :> VI(12)) @@ ("Class" :> VI(13)) @@ ("userName" :> VI(14)) @@ ("username" :> VI(15)) @@ ("A" :> VI(16))
 
 \* ---- whitespace styles of the text pieces ----------------------------------------------
 \* a style maps symbol k to its text
 Letter(k) == 64 + k      \* A, B, C ...
-Styles == {"sp", "lf", "mix", "none", "onlyws", "inner", "ctl", "ctl2"}
+\* (bsl: a backslash is the last / first byte of the text next to a tag; nonascii: the text ends in a multi-byte character, then
+\* whitespace; nonascii0: ... with no whitespace at all)
+Styles == {"sp", "lf", "mix", "none", "onlyws", "inner", "ctl", "ctl2", "bsl", "nonascii", "nonascii0"}
 \* a style is [ws |-> name, padAt |-> set of symbols that carry pad token #k in their middle]
 \* (pads are used by MC_C14; they never touch a delimiter, so trimming is unaffected)
 Mid(sty, k) == IF k \in sty.padAt THEN <<Letter(k), PadBase + k - 1, Letter(k)>> ELSE <<Letter(k)>>   \* pad token #k-1 (0-based on the Go side)
@@ -90,6 +96,9 @@ TextOfSym(sty, k) ==
       \* control bytes are not whitespace: a dash stops at NUL, VT, FF, ESC
       [] sty.ws = "ctl"    -> <<cLF, 0, cSP>> \o Mid(sty, k) \o <<cSP, 12, cTAB>>
       [] sty.ws = "ctl2"   -> <<cSP, 11>> \o Mid(sty, k) \o <<27, cLF>>
+      [] sty.ws = "bsl"    -> <<92>> \o Mid(sty, k) \o <<67, 58, 92>>
+      [] sty.ws = "nonascii" -> <<cSP, 201>> \o Mid(sty, k) \o <<8364, cSP, cLF>>       \* (letters without another case: the apply-upper entry)
+      [] sty.ws = "nonascii0" -> <<26085>> \o Mid(sty, k) \o <<201>>
 Sty(c) == [ws |-> c.style, padAt |-> IF "padAt" \in DOMAIN c THEN c.padAt ELSE {}]
 
 \* ---- layouts over the piece sequence ------------------------------------------------------
